@@ -17,7 +17,11 @@ EXTRA_FILES = [("m.ts", "export type X = { m: number };\nexport const v = 1;\n"
                 + "export enum BadE { Low, High }\n"
                 + "export enum CallE { A = String(1) }\n"
                 + "export type BadT = { f: symbol; g: () => void };\n"
-                + "export interface BadI { m(): void }\n")]
+                + "export interface BadI { m(): void }\n"),
+               # cycles of re-exports, a file with two default exports
+               ("cyc1.ts", 'export * from "./cyc2";\nexport type Own1 = string;\n'), ("cyc2.ts", 'export * from "./cyc1";\n'),
+               ("rc1.ts", 'export { RX } from "./rc2";\n'), ("rc2.ts", 'export { RX } from "./rc1";\n'),
+               ("dd.ts", "type DX = string;\nexport default DX;\nexport { DX as default };\nexport type DY = number;\n")]
 
 
 def grammar(tag, maxdepth, leafset, wrapset, simulate=None):
